@@ -88,24 +88,24 @@ func Load(dir string, patterns []string, overlay map[string]string, tags string)
 }
 
 type Options struct {
-	Workers      int
-	MaxPaths     int
-	MaxDecisions int
-	MaxSteps     int64
-	Unwind       int
-	FeasMs       int
-	AssertMs     int
-	Solver       string
-	Solver2      string // optional second opinion on assertion queries
-	Trace        bool
-	Concrete     map[string]string // replay: variable values; when non-nil the run is fully concrete
-	KeepGoing    bool              // continue exploring after a violation
-	MaxViolations int              // with KeepGoing: stop exploring a harness after this many violations (0 = never)
-	Deadline     time.Time         // stop exploring when this instant has passed (zero = never)
-	DumpDir      string
-	Fallback     []string        // solvers tried when the primary answers unknown
-	Tier         int             // 0 quick, 1 thorough (read by harnesses via verifTier)
-	Known        map[string]bool // ids of listed known findings
+	Workers       int
+	MaxPaths      int
+	MaxDecisions  int
+	MaxSteps      int64
+	Unwind        int
+	FeasMs        int
+	AssertMs      int
+	Solver        string
+	Solver2       string // optional second opinion on assertion queries
+	Trace         bool
+	Concrete      map[string]string // replay: variable values; when non-nil the run is fully concrete
+	KeepGoing     bool              // continue exploring after a violation
+	MaxViolations int               // with KeepGoing: stop exploring a harness after this many violations (0 = never)
+	Deadline      time.Time         // stop exploring when this instant has passed (zero = never)
+	DumpDir       string
+	Fallback      []string        // solvers tried when the primary answers unknown
+	Tier          int             // 0 quick, 1 thorough (read by harnesses via verifTier)
+	Known         map[string]bool // ids of listed known findings
 }
 
 func (o *Options) defaults() {
@@ -204,7 +204,7 @@ type HarnessResult struct {
 	UnknownFeas     int                       `json:"unknown_feasibility"`
 	WallS           float64                   `json:"wall_s"`
 	SamplePaths     []string                  `json:"sample_paths"`
-	StoppedEarly  bool `json:"stopped_early,omitempty"`
+	StoppedEarly    bool                      `json:"stopped_early,omitempty"`
 	PathBudgetHit   bool                      `json:"path_budget_hit"`
 	TimeBudgetHit   bool                      `json:"time_budget_hit,omitempty"`
 	KnownHits       []KnownHit                `json:"known_hits"`
